@@ -6,10 +6,7 @@
 //! a symbolic position is a memmove of symbolic size; a heap `Vec<T>` is an *untyped byte object* for
 //! CBMC, so an access at a symbolic index is a byte-extract at a symbolic offset; and every loop whose
 //! trip count depends on a symbolic "is this key already present" is unwound to the global bound.
-//! A third lesson (measured later): CAP inline copies of a large value type make every move of the
-//! enclosing struct into the heap (Arc::new(SctpInner{..})) a field-by-field byte-update that CBMC's
-//! simplifier does not finish; so each slot holds a `Box<T>` and the map itself is four pointers.
-//! So: storage is an inline typed array of CAP boxed slots, every operation is straight-line code over the
+//! So: storage is an inline typed array of CAP slots, every operation is straight-line code over the
 //! CAP slots (no loops, no reallocation, no memmove), ordered traversal picks "smallest key above the
 //! last one yielded". Semantics kept: keyed lookup, replace-on-insert, ascending key order for
 //! BTreeMap (iter/range/first/last/pop), set semantics. Dropped: capacity beyond CAP (a *bound of
@@ -23,13 +20,13 @@ pub const CAP: usize = 4;
 
 macro_rules! each_slot { ($i:ident => $body:expr) => {{ { let $i = 0usize; $body; } { let $i = 1usize; $body; } { let $i = 2usize; $body; } { let $i = 3usize; $body; } }}; }
 
-pub struct Slots<T> { s: [Option<Box<T>>; CAP] }
+pub struct Slots<T> { s: [Option<T>; CAP] }
 impl<T> Slots<T> {
     pub fn new() -> Self { Self { s: [None, None, None, None] } }
     /// index of the first slot satisfying `pred` (straight-line)
     fn find(&self, pred: impl Fn(&T) -> bool) -> Option<usize> {
         let mut r: Option<usize> = None;
-        each_slot!(i => { if r.is_none() { if let Some(e) = self.s[i].as_deref() { if pred(e) { r = Some(i); } } } });
+        each_slot!(i => { if r.is_none() { if let Some(e) = &self.s[i] { if pred(e) { r = Some(i); } } } });
         r
     }
     fn first_at_or_after(&self, from: usize) -> Option<usize> {
@@ -47,14 +44,10 @@ impl<T> Slots<T> {
     /// one pointer with a symbolic offset, and every later dereference a byte-extract at a symbolic
     /// offset into the whole object (measured: ~2 s of symbolic execution per iterator step).
     #[inline(always)]
-    fn at(&self, i: usize) -> Option<&T> { if i == 0 { self.s[0].as_deref() } else if i == 1 { self.s[1].as_deref() } else if i == 2 { self.s[2].as_deref() } else { assert!(i == 3); self.s[3].as_deref() } }
+    fn at(&self, i: usize) -> &Option<T> { if i == 0 { &self.s[0] } else if i == 1 { &self.s[1] } else if i == 2 { &self.s[2] } else { assert!(i == 3); &self.s[3] } }
     #[inline(always)]
-    fn at_mut(&mut self, i: usize) -> Option<&mut T> { if i == 0 { self.s[0].as_deref_mut() } else if i == 1 { self.s[1].as_deref_mut() } else if i == 2 { self.s[2].as_deref_mut() } else { assert!(i == 3); self.s[3].as_deref_mut() } }
-    #[inline(always)]
-    fn take(&mut self, i: usize) -> Option<T> { let b = if i == 0 { self.s[0].take() } else if i == 1 { self.s[1].take() } else if i == 2 { self.s[2].take() } else { assert!(i == 3); self.s[3].take() }; b.map(|b| *b) }
-    #[inline(always)]
-    fn set(&mut self, i: usize, v: T) { let b = Some(Box::new(v)); if i == 0 { self.s[0] = b } else if i == 1 { self.s[1] = b } else if i == 2 { self.s[2] = b } else { assert!(i == 3); self.s[3] = b } }
-    fn put(&mut self, v: T) -> usize { let i = self.free(); self.set(i, v); i }
+    fn at_mut(&mut self, i: usize) -> &mut Option<T> { if i == 0 { &mut self.s[0] } else if i == 1 { &mut self.s[1] } else if i == 2 { &mut self.s[2] } else { assert!(i == 3); &mut self.s[3] } }
+    fn put(&mut self, v: T) -> usize { let i = self.free(); *self.at_mut(i) = Some(v); i }
     fn count(&self) -> usize { let mut n = 0; each_slot!(i => { if self.s[i].is_some() { n += 1; } }); n }
     fn clear(&mut self) { each_slot!(i => { self.s[i] = None; }); }
 }
@@ -68,7 +61,7 @@ impl<'a, T> Iterator for Live<'a, T> {
     fn next(&mut self) -> Option<&'a T> {
         let j = self.s.first_at_or_after(self.i)?;
         self.i = j + 1;
-        self.s.at(j)
+        self.s.at(j).as_ref()
     }
     fn size_hint(&self) -> (usize, Option<usize>) { let mut n = 0; each_slot!(i => { if i >= self.i && self.s.s[i].is_some() { n += 1; } }); (n, Some(n)) }
 }
@@ -80,20 +73,20 @@ impl<'a, T> Iterator for LiveMut<'a, T> {
         let s: &'a mut Slots<T> = unsafe { &mut *self.p };
         let j = s.first_at_or_after(self.i)?;
         self.i = j + 1;
-        s.at_mut(j)
+        s.at_mut(j).as_mut()
     }
 }
 /// draining traversal
 pub struct Taking<'a, T> { s: &'a mut Slots<T>, i: usize }
 impl<'a, T> Iterator for Taking<'a, T> {
     type Item = T;
-    fn next(&mut self) -> Option<T> { let j = self.s.first_at_or_after(self.i)?; self.i = j + 1; self.s.take(j) }
+    fn next(&mut self) -> Option<T> { let j = self.s.first_at_or_after(self.i)?; self.i = j + 1; self.s.at_mut(j).take() }
 }
 impl<'a, T> Drop for Taking<'a, T> { fn drop(&mut self) { self.s.clear(); } }
 pub struct OwnedIter<T> { s: Slots<T>, i: usize }
 impl<T> Iterator for OwnedIter<T> {
     type Item = T;
-    fn next(&mut self) -> Option<T> { let j = self.s.first_at_or_after(self.i)?; self.i = j + 1; self.s.take(j) }
+    fn next(&mut self) -> Option<T> { let j = self.s.first_at_or_after(self.i)?; self.i = j + 1; self.s.at_mut(j).take() }
 }
 
 // ------------------------------------------------------------------------------------------
@@ -111,10 +104,10 @@ fn in_bounds<K: Ord>(k: &K, lo: &Bound<K>, hi: &Bound<K>) -> bool {
 fn pick<K: Ord, V>(s: &Slots<(K, V)>, smallest: bool, lo: &Bound<K>, hi: &Bound<K>, above: Option<&K>, below: Option<&K>) -> Option<usize> {
     let mut best: Option<usize> = None;
     each_slot!(i => {
-        if let Some((k, _)) = s.s[i].as_deref() {
+        if let Some((k, _)) = &s.s[i] {
             let ok = in_bounds(k, lo, hi) && (match above { Some(f) => k > f, None => true }) && (match below { Some(b) => k < b, None => true });
             if ok {
-                let better = match best { None => true, Some(b) => { let bk = &s.at(b).unwrap().0; if smallest { k < bk } else { k > bk } } };
+                let better = match best { None => true, Some(b) => { let bk = &s.at(b).as_ref().unwrap().0; if smallest { k < bk } else { k > bk } } };
                 if better { best = Some(i); }
             }
         }
@@ -129,7 +122,7 @@ impl<'a, K: Ord, V> Iterator for Ordered<'a, K, V> {
     type Item = (&'a K, &'a V);
     fn next(&mut self) -> Option<Self::Item> {
         let i = pick(self.s, true, &self.lo, &self.hi, self.front, self.back)?;
-        let e: &'a (K, V) = self.s.at(i).unwrap();
+        let e: &'a (K, V) = self.s.at(i).as_ref().unwrap();
         self.front = Some(&e.0);
         Some((&e.0, &e.1))
     }
@@ -137,7 +130,7 @@ impl<'a, K: Ord, V> Iterator for Ordered<'a, K, V> {
 impl<'a, K: Ord, V> DoubleEndedIterator for Ordered<'a, K, V> {
     fn next_back(&mut self) -> Option<Self::Item> {
         let i = pick(self.s, false, &self.lo, &self.hi, self.front, self.back)?;
-        let e: &'a (K, V) = self.s.at(i).unwrap();
+        let e: &'a (K, V) = self.s.at(i).as_ref().unwrap();
         self.back = Some(&e.0);
         Some((&e.0, &e.1))
     }
@@ -147,7 +140,7 @@ impl<'a, K: Ord, V> OrderedMut<'a, K, V> {
     fn step(&mut self, smallest: bool) -> Option<(&'a K, &'a mut V)> {
         let s: &'a mut Slots<(K, V)> = unsafe { &mut *self.p };
         let i = pick(s, smallest, &self.lo, &self.hi, self.front.map(|p| unsafe { &*p }), self.back.map(|p| unsafe { &*p }))?;
-        let e: &'a mut (K, V) = s.at_mut(i).unwrap();
+        let e: &'a mut (K, V) = s.at_mut(i).as_mut().unwrap();
         let kp: *const K = &e.0;
         if smallest { self.front = Some(kp); } else { self.back = Some(kp); }
         Some((unsafe { &*kp }, &mut e.1))
@@ -161,15 +154,15 @@ impl<K: Ord, V> BTreeMap<K, V> {
     fn pos<Q: ?Sized + Ord>(&self, k: &Q) -> Option<usize> where K: Borrow<Q> { self.v.find(|e| e.0.borrow() == k) }
     pub fn insert(&mut self, k: K, val: V) -> Option<V> {
         match self.pos(&k) {
-            Some(i) => Some(std::mem::replace(&mut self.v.at_mut(i).unwrap().1, val)),
+            Some(i) => Some(std::mem::replace(&mut self.v.at_mut(i).as_mut().unwrap().1, val)),
             None => { self.v.put((k, val)); None }
         }
     }
     pub fn remove<Q: ?Sized + Ord>(&mut self, k: &Q) -> Option<V> where K: Borrow<Q> { self.remove_entry(k).map(|e| e.1) }
-    pub fn remove_entry<Q: ?Sized + Ord>(&mut self, k: &Q) -> Option<(K, V)> where K: Borrow<Q> { match self.pos(k) { Some(i) => self.v.take(i), None => None } }
-    pub fn get<Q: ?Sized + Ord>(&self, k: &Q) -> Option<&V> where K: Borrow<Q> { match self.pos(k) { Some(i) => self.v.at(i).map(|e| &e.1), None => None } }
-    pub fn get_mut<Q: ?Sized + Ord>(&mut self, k: &Q) -> Option<&mut V> where K: Borrow<Q> { match self.pos(k) { Some(i) => self.v.at_mut(i).map(|e| &mut e.1), None => None } }
-    pub fn get_key_value<Q: ?Sized + Ord>(&self, k: &Q) -> Option<(&K, &V)> where K: Borrow<Q> { match self.pos(k) { Some(i) => self.v.at(i).map(|e| (&e.0, &e.1)), None => None } }
+    pub fn remove_entry<Q: ?Sized + Ord>(&mut self, k: &Q) -> Option<(K, V)> where K: Borrow<Q> { match self.pos(k) { Some(i) => self.v.at_mut(i).take(), None => None } }
+    pub fn get<Q: ?Sized + Ord>(&self, k: &Q) -> Option<&V> where K: Borrow<Q> { match self.pos(k) { Some(i) => self.v.at(i).as_ref().map(|e| &e.1), None => None } }
+    pub fn get_mut<Q: ?Sized + Ord>(&mut self, k: &Q) -> Option<&mut V> where K: Borrow<Q> { match self.pos(k) { Some(i) => self.v.at_mut(i).as_mut().map(|e| &mut e.1), None => None } }
+    pub fn get_key_value<Q: ?Sized + Ord>(&self, k: &Q) -> Option<(&K, &V)> where K: Borrow<Q> { match self.pos(k) { Some(i) => self.v.at(i).as_ref().map(|e| (&e.0, &e.1)), None => None } }
     pub fn contains_key<Q: ?Sized + Ord>(&self, k: &Q) -> bool where K: Borrow<Q> { self.pos(k).is_some() }
     pub fn len(&self) -> usize { self.v.count() }
     pub fn is_empty(&self) -> bool { self.v.count() == 0 }
@@ -192,23 +185,23 @@ impl<K: Ord, V> BTreeMap<K, V> {
         while round < CAP {
             let mut best: Option<usize> = None;
             each_slot!(i => {
-                if !done[i] { if let Some((k, _)) = self.v.s[i].as_deref() {
-                    let better = match best { None => true, Some(b) => k < &self.v.at(b).unwrap().0 };
+                if !done[i] { if let Some((k, _)) = &self.v.s[i] {
+                    let better = match best { None => true, Some(b) => k < &self.v.at(b).as_ref().unwrap().0 };
                     if better { best = Some(i); }
                 } }
             });
             if let Some(i) = best {
                 done[i] = true;
-                let keep = { let e = self.v.at_mut(i).unwrap(); f(&e.0, &mut e.1) };
-                if !keep { self.v.take(i); }
+                let keep = { let e = self.v.at_mut(i).as_mut().unwrap(); f(&e.0, &mut e.1) };
+                if !keep { self.v.at_mut(i).take(); }
             }
             round += 1;
         }
     }
     pub fn first_key_value(&self) -> Option<(&K, &V)> { self.iter().next() }
     pub fn last_key_value(&self) -> Option<(&K, &V)> { self.iter().next_back() }
-    pub fn pop_first(&mut self) -> Option<(K, V)> { let i = pick(&self.v, true, &Bound::Unbounded, &Bound::Unbounded, None, None)?; self.v.take(i) }
-    pub fn pop_last(&mut self) -> Option<(K, V)> { let i = pick(&self.v, false, &Bound::Unbounded, &Bound::Unbounded, None, None)?; self.v.take(i) }
+    pub fn pop_first(&mut self) -> Option<(K, V)> { let i = pick(&self.v, true, &Bound::Unbounded, &Bound::Unbounded, None, None)?; self.v.at_mut(i).take() }
+    pub fn pop_last(&mut self) -> Option<(K, V)> { let i = pick(&self.v, false, &Bound::Unbounded, &Bound::Unbounded, None, None)?; self.v.at_mut(i).take() }
     pub fn entry(&mut self, k: K) -> BEntry<'_, K, V> { BEntry { m: self, k } }
     pub fn into_keys(self) -> impl Iterator<Item = K> { self.into_iter().map(|e| e.0) }
     pub fn into_values(self) -> impl Iterator<Item = V> { self.into_iter().map(|e| e.1) }
@@ -217,12 +210,12 @@ pub struct BEntry<'a, K, V> { m: &'a mut BTreeMap<K, V>, k: K }
 impl<'a, K: Ord, V> BEntry<'a, K, V> {
     pub fn or_insert_with<F: FnOnce() -> V>(self, f: F) -> &'a mut V {
         let i = match self.m.pos(&self.k) { Some(i) => i, None => self.m.v.put((self.k, f())) };
-        &mut self.m.v.at_mut(i).unwrap().1
+        &mut self.m.v.at_mut(i).as_mut().unwrap().1
     }
     pub fn or_insert(self, v: V) -> &'a mut V { self.or_insert_with(|| v) }
     pub fn or_default(self) -> &'a mut V where V: Default { self.or_insert_with(V::default) }
     pub fn and_modify<F: FnOnce(&mut V)>(self, f: F) -> Self {
-        if let Some(i) = self.m.pos(&self.k) { f(&mut self.m.v.at_mut(i).unwrap().1); }
+        if let Some(i) = self.m.pos(&self.k) { f(&mut self.m.v.at_mut(i).as_mut().unwrap().1); }
         self
     }
 }
@@ -244,17 +237,17 @@ impl<K: Eq, V> HashMap<K, V> {
     pub fn new() -> Self { Self::default() }
     pub fn with_capacity(_n: usize) -> Self { Self::default() }
     fn pos<Q: ?Sized + Eq>(&self, k: &Q) -> Option<usize> where K: Borrow<Q> { self.v.find(|e| e.0.borrow() == k) }
-    pub fn get<Q: ?Sized + Eq>(&self, k: &Q) -> Option<&V> where K: Borrow<Q> { match self.pos(k) { Some(i) => self.v.at(i).map(|e| &e.1), None => None } }
-    pub fn get_mut<Q: ?Sized + Eq>(&mut self, k: &Q) -> Option<&mut V> where K: Borrow<Q> { match self.pos(k) { Some(i) => self.v.at_mut(i).map(|e| &mut e.1), None => None } }
-    pub fn get_key_value<Q: ?Sized + Eq>(&self, k: &Q) -> Option<(&K, &V)> where K: Borrow<Q> { match self.pos(k) { Some(i) => self.v.at(i).map(|e| (&e.0, &e.1)), None => None } }
+    pub fn get<Q: ?Sized + Eq>(&self, k: &Q) -> Option<&V> where K: Borrow<Q> { match self.pos(k) { Some(i) => self.v.at(i).as_ref().map(|e| &e.1), None => None } }
+    pub fn get_mut<Q: ?Sized + Eq>(&mut self, k: &Q) -> Option<&mut V> where K: Borrow<Q> { match self.pos(k) { Some(i) => self.v.at_mut(i).as_mut().map(|e| &mut e.1), None => None } }
+    pub fn get_key_value<Q: ?Sized + Eq>(&self, k: &Q) -> Option<(&K, &V)> where K: Borrow<Q> { match self.pos(k) { Some(i) => self.v.at(i).as_ref().map(|e| (&e.0, &e.1)), None => None } }
     pub fn contains_key<Q: ?Sized + Eq>(&self, k: &Q) -> bool where K: Borrow<Q> { self.pos(k).is_some() }
     pub fn insert(&mut self, k: K, val: V) -> Option<V> {
-        match self.pos(&k) { Some(i) => Some(std::mem::replace(&mut self.v.at_mut(i).unwrap().1, val)), None => { self.v.put((k, val)); None } }
+        match self.pos(&k) { Some(i) => Some(std::mem::replace(&mut self.v.at_mut(i).as_mut().unwrap().1, val)), None => { self.v.put((k, val)); None } }
     }
     pub fn remove<Q: ?Sized + Eq>(&mut self, k: &Q) -> Option<V> where K: Borrow<Q> { self.remove_entry(k).map(|e| e.1) }
-    pub fn remove_entry<Q: ?Sized + Eq>(&mut self, k: &Q) -> Option<(K, V)> where K: Borrow<Q> { match self.pos(k) { Some(i) => self.v.take(i), None => None } }
+    pub fn remove_entry<Q: ?Sized + Eq>(&mut self, k: &Q) -> Option<(K, V)> where K: Borrow<Q> { match self.pos(k) { Some(i) => self.v.at_mut(i).take(), None => None } }
     pub fn retain<F: FnMut(&K, &mut V) -> bool>(&mut self, mut f: F) {
-        each_slot!(i => { let keep = match self.v.s[i].as_deref_mut() { Some(e) => f(&e.0, &mut e.1), None => true }; if !keep { self.v.s[i] = None; } });
+        each_slot!(i => { let keep = match self.v.s[i].as_mut() { Some(e) => f(&e.0, &mut e.1), None => true }; if !keep { self.v.s[i] = None; } });
     }
     pub fn len(&self) -> usize { self.v.count() }
     pub fn is_empty(&self) -> bool { self.v.count() == 0 }
@@ -276,12 +269,12 @@ pub struct Entry<'a, K, V> { m: &'a mut HashMap<K, V>, k: K }
 impl<'a, K: Eq, V> Entry<'a, K, V> {
     pub fn or_insert_with<F: FnOnce() -> V>(self, f: F) -> &'a mut V {
         let i = match self.m.pos(&self.k) { Some(i) => i, None => self.m.v.put((self.k, f())) };
-        &mut self.m.v.at_mut(i).unwrap().1
+        &mut self.m.v.at_mut(i).as_mut().unwrap().1
     }
     pub fn or_insert(self, v: V) -> &'a mut V { self.or_insert_with(|| v) }
     pub fn or_default(self) -> &'a mut V where V: Default { self.or_insert_with(V::default) }
     pub fn and_modify<F: FnOnce(&mut V)>(self, f: F) -> Self {
-        if let Some(i) = self.m.pos(&self.k) { f(&mut self.m.v.at_mut(i).unwrap().1); }
+        if let Some(i) = self.m.pos(&self.k) { f(&mut self.m.v.at_mut(i).as_mut().unwrap().1); }
         self
     }
     pub fn key(&self) -> &K { &self.k }
@@ -319,13 +312,13 @@ impl<K: Eq> HashSet<K> {
     fn pos<Q: ?Sized + Eq>(&self, k: &Q) -> Option<usize> where K: Borrow<Q> { self.v.find(|e| e.borrow() == k) }
     pub fn contains<Q: ?Sized + Eq>(&self, k: &Q) -> bool where K: Borrow<Q> { self.pos(k).is_some() }
     pub fn insert(&mut self, k: K) -> bool { if self.pos(&k).is_some() { false } else { self.v.put(k); true } }
-    pub fn remove<Q: ?Sized + Eq>(&mut self, k: &Q) -> bool where K: Borrow<Q> { match self.pos(k) { Some(i) => { self.v.take(i); true } None => false } }
+    pub fn remove<Q: ?Sized + Eq>(&mut self, k: &Q) -> bool where K: Borrow<Q> { match self.pos(k) { Some(i) => { self.v.at_mut(i).take(); true } None => false } }
     pub fn len(&self) -> usize { self.v.count() }
     pub fn is_empty(&self) -> bool { self.v.count() == 0 }
     pub fn clear(&mut self) { self.v.clear() }
     pub fn iter(&self) -> Live<'_, K> { Live { s: &self.v, i: 0 } }
     pub fn retain<F: FnMut(&K) -> bool>(&mut self, mut f: F) {
-        each_slot!(i => { let keep = match self.v.s[i].as_deref() { Some(e) => f(e), None => true }; if !keep { self.v.s[i] = None; } });
+        each_slot!(i => { let keep = match self.v.s[i].as_ref() { Some(e) => f(e), None => true }; if !keep { self.v.s[i] = None; } });
     }
     pub fn drain(&mut self) -> Taking<'_, K> { Taking { s: &mut self.v, i: 0 } }
 }
@@ -339,7 +332,7 @@ impl<K: Eq> PartialEq for HashSet<K> { fn eq(&self, o: &Self) -> bool { self.len
 // VecDeque (FIFO subset: push_back / pop_front / front / len / iter), loop-free, at most DQ_CAP items
 // ------------------------------------------------------------------------------------------
 pub const DQ_CAP: usize = 8;
-pub struct VecDeque<T> { s: [Option<Box<T>>; DQ_CAP], head: u8, n: u8 }
+pub struct VecDeque<T> { s: [Option<T>; DQ_CAP], head: u8, n: u8 }
 impl<T> Default for VecDeque<T> { fn default() -> Self { Self::new() } }
 impl<T> VecDeque<T> {
     pub fn new() -> Self { VecDeque { s: [None, None, None, None, None, None, None, None], head: 0, n: 0 } }
@@ -347,19 +340,19 @@ impl<T> VecDeque<T> {
     pub fn len(&self) -> usize { self.n as usize }
     pub fn is_empty(&self) -> bool { self.n == 0 }
     #[inline(always)]
-    fn slot_mut(&mut self, i: u8) -> &mut Option<Box<T>> {
+    fn slot_mut(&mut self, i: u8) -> &mut Option<T> {
         if i == 0 { &mut self.s[0] } else if i == 1 { &mut self.s[1] } else if i == 2 { &mut self.s[2] } else if i == 3 { &mut self.s[3] }
         else if i == 4 { &mut self.s[4] } else if i == 5 { &mut self.s[5] } else if i == 6 { &mut self.s[6] } else { &mut self.s[7] }
     }
     #[inline(always)]
-    fn slot(&self, i: u8) -> &Option<Box<T>> {
+    fn slot(&self, i: u8) -> &Option<T> {
         if i == 0 { &self.s[0] } else if i == 1 { &self.s[1] } else if i == 2 { &self.s[2] } else if i == 3 { &self.s[3] }
         else if i == 4 { &self.s[4] } else if i == 5 { &self.s[5] } else if i == 6 { &self.s[6] } else { &self.s[7] }
     }
     pub fn push_back(&mut self, v: T) {
         if self.n as usize >= DQ_CAP { panic!("vcoll VecDeque model capacity (8) exceeded: bound of the verification model, not of the code under test"); }
         let i = (self.head + self.n) & 7;
-        *self.slot_mut(i) = Some(Box::new(v));
+        *self.slot_mut(i) = Some(v);
         self.n += 1;
     }
     pub fn pop_front(&mut self) -> Option<T> {
@@ -367,10 +360,10 @@ impl<T> VecDeque<T> {
         let i = self.head;
         self.head = (self.head + 1) & 7;
         self.n -= 1;
-        self.slot_mut(i).take().map(|b| *b)
+        self.slot_mut(i).take()
     }
-    pub fn front(&self) -> Option<&T> { if self.n == 0 { None } else { self.slot(self.head).as_deref() } }
-    pub fn get(&self, k: usize) -> Option<&T> { if k >= self.n as usize { None } else { self.slot((self.head + k as u8) & 7).as_deref() } }
+    pub fn front(&self) -> Option<&T> { if self.n == 0 { None } else { self.slot(self.head).as_ref() } }
+    pub fn get(&self, k: usize) -> Option<&T> { if k >= self.n as usize { None } else { self.slot((self.head + k as u8) & 7).as_ref() } }
     pub fn clear(&mut self) { while self.pop_front().is_some() {} }
     pub fn iter(&self) -> DqIter<'_, T> { DqIter { d: self, k: 0 } }
 }
